@@ -491,7 +491,7 @@ func (s *Scanner) delimCmd() error {
 	}
 	delim := strings.TrimSpace(s.input[len(delimiterCmd):s.pos])
 	// MySQL client allows quoting delimiters.
-	if strings.HasPrefix(delim, "'") && strings.HasSuffix(delim, "'") {
+	if len(delim) > 1 && strings.HasPrefix(delim, "'") && strings.HasSuffix(delim, "'") {
 		delim = strings.ReplaceAll(delim[1:len(delim)-1], "''", "'")
 	}
 	if err := s.setDelim(delim); err != nil {
